@@ -199,3 +199,53 @@ def crossing_pair(markets, ttl=3, volume=1):
     n = len(markets)
     prog = [[["L", i, True, 1, volume, ttl]] for i in range(n)] + [[["L", i, False, -1, volume, ttl]] for i in range(n)]
     return {"class": "VScriptedAgent", "numAgents": 2, "markets": list(markets), "assetVolume": 10, "cashAmount": 1000, "scripts": [prog]}
+
+
+# ---------------------------------------------------------------------------------------------------------------
+# the repository's own sample configurations, scaled down and with recording agent classes
+
+SAMPLES = ["CI2002", "fat_finger", "price_limit", "shock_transfer", "test", "trading_halt"]
+TRACED_NAME = {"FCNAgent": "VTracedFCNAgent", "ArbitrageAgent": "VTracedArbitrageAgent", "MarketMakerAgent": "VTracedMarketMakerAgent",
+               "MarketShareFCNAgent": "VTracedMarketShareFCNAgent", "TestAgent": "VTracedTestAgent"}
+
+
+def load_sample(name: str) -> Dict[str, Any]:
+    import json
+    import os
+
+    from .common import REPO_DIR
+
+    with open(os.path.join(REPO_DIR, "samples", name, "config.json")) as f:
+        return json.load(f)
+
+
+@st.composite
+def sample_cases(draw, traced: bool = True, probe: bool = True):
+    """samples/<name>/config.json with 100 -> 4..30 agents per group and 100+500 -> (10..40)+(30..140) steps; everything else
+    (fundamentals, events, agent parameter distributions, extends chains, market groups) is kept as shipped."""
+    name = draw(st.sampled_from(SAMPLES))
+    cfg = load_sample(name)
+    n_agents = draw(st.integers(4, 30))
+    for k, v in cfg.items():
+        if isinstance(v, dict) and v.get("numAgents"):
+            v["numAgents"] = min(v["numAgents"], n_agents)
+        if traced and isinstance(v, dict) and v.get("class") in TRACED_NAME:
+            v["class"] = TRACED_NAME[v["class"]]
+    ses = cfg["simulation"]["sessions"]
+    first = draw(st.integers(10, 40))
+    second = draw(st.sampled_from([30, 60, 99, 101, 140]))
+    for i, s_ in enumerate(ses):
+        old = s_["iterationSteps"]
+        s_["iterationSteps"] = first if i == 0 else second
+        s_["withPrint"] = False
+        if draw(st.booleans()):
+            s_["maxNormalOrders"] = draw(st.integers(1, 4))
+    # event times of the samples refer to the second session: keep them inside the shortened session
+    for k, v in cfg.items():
+        if isinstance(v, dict) and "triggerTime" in v:
+            v["triggerTime"] = draw(st.integers(0, max(0, second - 5)))
+    if probe:
+        cfg["VP"] = {"class": "VProbeEvent", "hooks": [["execution", False, None, None, None], ["market", True, None, None, None]]}
+        ses[0].setdefault("events", [])
+        ses[0]["events"] = ["VP"] + list(ses[0]["events"])
+    return {"config": cfg, "seed": draw(st.integers(0, 2**31 - 1)), "sample": name}
